@@ -104,13 +104,19 @@ Variable g : grammar.
 Variable input : list N.
 Variable orc : nat -> nat -> option nat.
 Variable x : sctx.
+(* the invariant of comment_positions is a parameter: identity entries without a Comment rule, the comment
+   closure with one; [d]: the reference semantics may run with d more units of fuel *)
+Variable CP : list (nat * nat) -> Prop.
+Variable dx : nat.
+Hypothesis HCPid : forall m, CP m -> cpos_id m.
+Hypothesis HCPupd : forall m p, CP m -> CP (upd p p m).
 Hypothesis Hx_cmt : x_incmt x = false.
 Hypothesis Hcm : g_comments g = None.
 Hypothesis Horc : orc_pos orc.
 
 Record inv (s : st) : Prop := mkInv {
   inv_ws : ws s = eff_ws x; inv_skip : skipws s = x_skip x; inv_cmt : in_cmt s = false;
-  inv_cpos : cpos_id (cpos s); inv_eol : eolterm s = x_eol x; inv_real : real_ws s = x_ws x }.
+  inv_cpos : CP (cpos s); inv_eol : eolterm s = x_eol x; inv_real : real_ws s = x_ws x }.
 
 Lemma inv_set_pos p s : inv s -> inv (set_pos p s).
 Proof. intros [H1 H2 H3 H4 H5 H6]. constructor; assumption. Qed.
@@ -146,15 +152,15 @@ Proof.
     assert (Ep1 : p1 = sws input x (pos s)) by (unfold sws; rewrite <- H1; reflexivity).
     assert (Hge : pos s <= p1) by apply skip_ws_from_ge.
     rewrite H2. destruct (lookup p1 (cpos s)) as [q|] eqn:EL.
-    + apply (cpos_id_lookup _ _ _ H4) in EL. subst q.
+    + apply (cpos_id_lookup _ _ _ (HCPid _ H4)) in EL. subst q.
       eexists. split; [reflexivity|]. split; [constructor; cbn; try assumption; congruence|]. cbn [pos set_pos]. split; [exact Ep1 | exact Hge].
     + rewrite H3. unfold parse_comments. rewrite Hcm.
       eexists. split; [reflexivity|]. split.
-      * constructor; cbn; try assumption; try congruence. apply cpos_id_upd. exact H4.
+      * constructor; cbn; try assumption; try congruence. apply HCPupd. exact H4.
       * cbn [pos set_pos set_cpos set_in_cmt]. split; [exact Ep1 | exact Hge].
   - rewrite H2. rewrite H3. unfold parse_comments. rewrite Hcm.
     eexists. split; [reflexivity|]. split.
-    + constructor; cbn; try assumption; try congruence. apply cpos_id_upd. exact H4.
+    + constructor; cbn; try assumption; try congruence. apply HCPupd. exact H4.
     + cbn. split; [reflexivity | lia].
 Qed.
 
@@ -296,9 +302,9 @@ Lemma rep_sim rec srec e sep plus :
   forall k first acc sacc s, inv s -> erase_all sacc = flatten (RList acc) -> clean (RList acc) ->
   Forall (fun r => truthy r = true) acc ->
   match rep_loop rec e sep plus k first acc s with
-  | Ok r s' => exists ts, srep true srec e sep plus x k first sacc (pos s) = SOk ts (pos s') /\
+  | Ok r s' => exists ts, srep true srec e sep plus x (k + dx) first sacc (pos s) = SOk ts (pos s') /\
                           rep_post plus first acc sacc s r s' ts
-  | Fail s' => srep true srec e sep plus x k first sacc (pos s) = SFail /\ inv s'
+  | Fail s' => srep true srec e sep plus x (k + dx) first sacc (pos s) = SFail /\ inv s'
   | Abort _ => True
   end.
 Proof.
@@ -310,9 +316,9 @@ Proof.
             (exists rest, flatten (RList acc1) = flatten (RList acc) ++ rest) ->
             (first = true -> acc1 = acc /\ sts = []) ->
             match rep_elem rec e sep plus k first (pos s) acc1 s1 with
-            | Ok r s' => exists ts, srep_elem srec e sep plus k first sacc (pos s) sts (pos s1) = SOk ts (pos s') /\
+            | Ok r s' => exists ts, srep_elem srec e sep plus (k + dx) first sacc (pos s) sts (pos s1) = SOk ts (pos s') /\
                                     rep_post plus first acc sacc s r s' ts
-            | Fail s' => srep_elem srec e sep plus k first sacc (pos s) sts (pos s1) = SFail /\ inv s'
+            | Fail s' => srep_elem srec e sep plus (k + dx) first sacc (pos s) sts (pos s1) = SFail /\ inv s'
             | Abort _ => True
             end).
   { intros acc1 sts s1 Hinv1 Hle1 He1 Hcl1 Htr1 [rest1 Hrest1] Hfirst.
@@ -348,7 +354,7 @@ Proof.
         * intros Hf. destruct (Hfirst Hf) as [-> ->]. left. split; [reflexivity | apply app_nil_r].
         * intro X. rewrite Epf in X. discriminate.
     - exact I. }
-  rewrite rep_loop_S, srep_S.
+  change (S k + dx) with (S (k + dx)). rewrite rep_loop_S, srep_S.
   assert (Hself : exists rest, flatten (RList acc) = flatten (RList acc) ++ rest) by (exists []; rewrite app_nil_r; reflexivity).
   assert (Hea0 : erase_all (sacc ++ []) = flatten (RList acc)) by (rewrite app_nil_r; exact Hea).
   destruct sep as [sp|].
@@ -480,7 +486,7 @@ Proof. unfold enter_eol. destruct (n_eolterm nd); reflexivity. Qed.
 Lemma leave_eol_pos nd s s1 : pos (leave_eol nd s s1) = pos s1.
 Proof. unfold leave_eol. destruct (n_eolterm nd); reflexivity. Qed.
 
-Lemma enter_ws_inv x nd s : inv x s -> (n_ws nd = None \/ x_eol x = false) -> inv (ctx_enter nd x) (enter_ws nd s).
+Lemma enter_ws_inv x CP nd s : inv x CP s -> (n_ws nd = None \/ x_eol x = false) -> inv (ctx_enter nd x) CP (enter_ws nd s).
 Proof.
   destruct x as [xw xs xe xi]. intros [H1 H2 H3 H4 H5 H6] Hc.
   unfold enter_ws, ctx_enter, set_ws, set_skipws, eff_ws in *. cbn [x_ws x_skip x_eol x_incmt] in *.
@@ -491,8 +497,8 @@ Proof.
   - destruct (n_skipws nd); constructor; cbn [ws skipws in_cmt cpos eolterm real_ws x_ws x_skip x_eol eff_ws]; try assumption; reflexivity.
 Qed.
 
-Lemma leave_ws_inv x nd s s1 :
-  inv x s -> (n_ws nd = None \/ x_eol x = false) -> inv (ctx_enter nd x) s1 -> inv x (leave_ws nd s s1).
+Lemma leave_ws_inv x CP nd s s1 :
+  inv x CP s -> (n_ws nd = None \/ x_eol x = false) -> inv (ctx_enter nd x) CP s1 -> inv x CP (leave_ws nd s s1).
 Proof.
   destruct x as [xw xs xe xi]. intros [H1 H2 H3 H4 H5 H6] Hc [G1 G2 G3 G4 G5 G6]. unfold leave_ws, set_ws, set_skipws.
   unfold ctx_enter, eff_ws in *. cbn [x_ws x_skip x_eol x_incmt] in *.
@@ -503,7 +509,7 @@ Proof.
   - destruct (n_skipws nd); constructor; cbn [ws skipws in_cmt cpos eolterm real_ws x_ws x_skip x_eol eff_ws]; try assumption; reflexivity.
 Qed.
 
-Lemma enter_eol_inv x nd s : inv x s -> inv (ctx_eol nd x) (enter_eol nd s).
+Lemma enter_eol_inv x CP nd s : inv x CP s -> inv (ctx_eol nd x) CP (enter_eol nd s).
 Proof.
   destruct x as [xw xs xe xi]. intros [H1 H2 H3 H4 H5 H6]. unfold enter_eol, ctx_eol.
   destruct (n_eolterm nd); [|constructor; assumption].
@@ -512,7 +518,7 @@ Proof.
   rewrite H1. destruct xe; [apply strip_eol_idem | reflexivity].
 Qed.
 
-Lemma leave_eol_inv x nd s s1 : inv x s -> inv (ctx_eol nd x) s1 -> inv x (leave_eol nd s s1).
+Lemma leave_eol_inv x CP nd s s1 : inv x CP s -> inv (ctx_eol nd x) CP s1 -> inv x CP (leave_eol nd s s1).
 Proof.
   destruct x as [xw xs xe xi]. intros [H1 H2 H3 H4 H5 H6] [G1 G2 G3 G4 G5 G6]. unfold leave_eol. unfold ctx_eol in *.
   destruct (n_eolterm nd); [|constructor; assumption].
@@ -525,22 +531,35 @@ Section Refine2.
 Variable g : grammar.
 Variable input : list N.
 Variable orc : nat -> nat -> option nat.
-Hypothesis Hcm : g_comments g = None.
 Hypothesis Horc : orc_pos orc.
+(* parameters of the simulation: the invariant of comment_positions, the extra fuel of the reference side, the
+   contexts that occur, and what Match.parse does before the terminal itself (whitespace / comments) *)
+Variable CP : list (nat * nat) -> Prop.
+Variable dx : nat.
+Variable OKX : sctx -> Prop.
+Hypothesis HOK_enter : forall nd x, In nd (g_nodes g) -> OKX x -> OKX (ctx_enter nd x).
+Hypothesis HOK_eol : forall nd x, In nd (g_nodes g) -> OKX x -> OKX (ctx_eol nd x).
+Hypothesis HOK_ws : forall nd x, In nd (g_nodes g) -> OKX x -> n_ws nd = None \/ x_eol x = false.
+Hypothesis Hpre : forall f x s, OKX x -> inv x CP s ->
+  match match_pre g input (parse g input orc false f) f s with
+  | Ok r s1 => inv x CP s1 /\ skip g input (seval g input orc true (f + dx)) (f + dx) x (pos s) = Some (pos s1) /\ pos s <= pos s1
+  | Fail _ => False
+  | Abort _ => True
+  end.
 
 Definition sim_all (rec : nat -> bool -> st -> out) (srec : nat -> bool -> sctx -> nat -> sres) : Prop :=
-  forall x, okx g x -> sim g x rec srec.
+  forall x, OKX x -> sim g x CP rec srec.
 
 (* what body_sim concludes *)
 Definition body_post (x : sctx) (nd : node) (s : st) (r : res) (s' : st) (ts : list stree) : Prop :=
-  erase_all ts = flatten r /\ clean r /\ inv x s' /\ pos s <= pos s' /\ is_ptnode r = false /\
+  erase_all ts = flatten r /\ clean r /\ inv x CP s' /\ pos s <= pos s' /\ is_ptnode r = false /\
   (head_is_none r = true -> flatten r = []) /\
   (live_root nd = true -> flatten r = [] ->
      truthy (if head_is_none r then RNone else r) = false /\ ts = [] /\ (n_kind nd = KOpt \/ n_kind nd = KStar)) /\
   (forall k, prod_nd (prodb g k) nd = true -> flatten r <> [] /\ pos s < pos s').
 
 Lemma body_post_none x nd s s' :
-  inv x s' -> pos s <= pos s' -> live_root nd = false -> (forall k, prod_nd (prodb g k) nd = false) ->
+  inv x CP s' -> pos s <= pos s' -> live_root nd = false -> (forall k, prod_nd (prodb g k) nd = false) ->
   body_post x nd s RNone s' [].
 Proof.
   intros Hi Hl Hr Hp. unfold body_post.
@@ -550,19 +569,17 @@ Proof.
 Qed.
 
 Lemma body_sim rec srec k nd pf x s :
-  sim_all rec srec -> okx g x -> node_ok g (prodb g pf) nd = true -> In nd (g_nodes g) ->
-  (n_eolterm nd = true -> nows g = true) ->
-  inv x s -> is_match_kind (n_kind nd) = false ->
+  sim_all rec srec -> OKX x -> node_ok g (prodb g pf) nd = true -> In nd (g_nodes g) ->
+  inv x CP s -> is_match_kind (n_kind nd) = false ->
   match body rec k nd s with
-  | Ok r s' => exists ts, sbody true srec k nd x (pos s) = SOk ts (pos s') /\ body_post x nd s r s' ts
-  | Fail s' => sbody true srec k nd x (pos s) = SFail /\ inv x s'
+  | Ok r s' => exists ts, sbody true srec (k + dx) nd x (pos s) = SOk ts (pos s') /\ body_post x nd s r s' ts
+  | Fail s' => sbody true srec (k + dx) nd x (pos s) = SFail /\ inv x CP s'
   | Abort _ => True
   end.
 Proof.
-  intros Hall Hokx Hok Hnd Heolg Hinv Hnm. unfold node_ok in Hok.
+  intros Hall Hokx Hok Hnd Hinv Hnm. unfold node_ok in Hok.
   pose proof (Hall x Hokx) as Hsim.
-  assert (Hwsc : n_ws nd = None \/ x_eol x = false).
-  { destruct (x_eol x) eqn:Ee; [left; apply (nows_node g nd); [apply (proj2 Hokx); exact Ee | exact Hnd] | right; reflexivity]. }
+  pose proof (HOK_ws nd x Hnd Hokx) as Hwsc.
   assert (Hpr : forall c, prodb g pf c = true -> exists j, prodb g j c = true) by (intros c Hc; exists pf; exact Hc).
   apply andb_true_iff in Hok as [Hok Hkind]. apply andb_true_iff in Hok as [Hok Hkids].
   apply andb_true_iff in Hok as [Hok Hmods]. apply andb_true_iff in Hok as [Hsepok Heol].
@@ -572,13 +589,13 @@ Proof.
   destruct (n_kind nd) eqn:Ek; try discriminate.
   - (* KSeq *)
     set (x' := ctx_enter nd x). set (s0 := enter_ws nd s).
-    assert (Hinv0 : inv x' s0) by (apply enter_ws_inv; assumption).
+    assert (Hinv0 : inv x' CP s0) by (apply enter_ws_inv; assumption).
     assert (Hp0 : pos s0 = pos s) by apply enter_ws_pos.
-    pose proof (seq_sim g x' rec srec true (n_kids nd) (Hall x' (okx_enter g nd x Hokx)) Hval [] [] s0 Hinv0 eq_refl (Forall_nil _) (Forall_nil _)) as HS.
+    pose proof (seq_sim g x' CP rec srec true (n_kids nd) (Hall x' (HOK_enter nd x Hnd Hokx)) Hval [] [] s0 Hinv0 eq_refl (Forall_nil _) (Forall_nil _)) as HS.
     rewrite Hp0 in HS.
     destruct (seq_loop rec true (n_kids nd) [] s0) as [r s1|s1|w] eqn:E.
     + destruct HS as [acc' [ts [Er [Es [Ee [Hcl [Hinv1 [Hle [Htr [_ Hprod]]]]]]]]]]. subst r.
-      assert (Hinvl : inv x (leave_ws nd s s1)) by (apply leave_ws_inv; assumption).
+      assert (Hinvl : inv x CP (leave_ws nd s s1)) by (apply leave_ws_inv; assumption).
       assert (Hpost : forall r0, flatten r0 = flatten (RList acc') -> clean r0 -> is_ptnode r0 = false ->
                                  head_is_none r0 = false -> body_post x nd s r0 (leave_ws nd s s1) ts).
       { intros r0 Hf Hc0 Hpt Hh. unfold body_post. rewrite Hf, leave_ws_pos.
@@ -597,12 +614,12 @@ Proof.
     + exact I.
   - (* KChoice *)
     set (x' := ctx_enter nd x). set (s0 := enter_ws nd s).
-    assert (Hinv0 : inv x' s0) by (apply enter_ws_inv; assumption).
+    assert (Hinv0 : inv x' CP s0) by (apply enter_ws_inv; assumption).
     assert (Hp0 : pos s0 = pos s) by apply enter_ws_pos.
     apply andb_true_iff in Hkind as [Hall' Hne].
     assert (Hprodk : forall c, In c (n_kids nd) -> exists j, prodb g j c = true).
     { intros c Hc. apply Hpr. rewrite forallb_forall in Hall'. apply Hall'. exact Hc. }
-    pose proof (choice_sim g x' rec srec (pos s) (n_kids nd) (Hall x' (okx_enter g nd x Hokx)) Hval Hprodk s0 Hinv0 Hp0) as HS.
+    pose proof (choice_sim g x' CP rec srec (pos s) (n_kids nd) (Hall x' (HOK_enter nd x Hnd Hokx)) Hval Hprodk s0 Hinv0 Hp0) as HS.
     destruct (choice_loop rec (pos s) (n_kids nd) s0) as [r s1|s1|w] eqn:E.
     + destruct HS as [[Hnn [ts [Es [Ee [Hcl [Hinv1 [Hlt Hne']]]]]]] | [Hn [Es Hinv1]]].
       * rewrite Hnn. exists ts. rewrite leave_ws_pos. split; [exact Es|]. unfold body_post.
@@ -640,11 +657,11 @@ Proof.
     destruct (n_kids nd) as [|e rest] eqn:Ekids; [discriminate|].
     inversion Hval as [|? ? He _]; subst.
     set (x' := ctx_eol nd x). set (s0 := enter_eol nd s).
-    assert (Hinv0 : inv x' s0) by (apply enter_eol_inv; exact Hinv).
+    assert (Hinv0 : inv x' CP s0) by (apply enter_eol_inv; exact Hinv).
     assert (Hp0 : pos s0 = pos s) by apply enter_eol_pos.
     assert (Hsepv : forall sp, n_sep nd = Some sp -> valid g sp).
     { intros sp E. unfold sep_ok in Hsepok. rewrite E, Ek in Hsepok. apply Nat.ltb_lt in Hsepok. exact Hsepok. }
-    pose proof (rep_sim g x' rec srec e (n_sep nd) false (Hall x' (okx_eol g nd x Hokx Heolg)) He (Hpr e Hkind) Hsepv k true [] [] s0 Hinv0 eq_refl (Forall_nil _) (Forall_nil _)) as HS.
+    pose proof (rep_sim g x' CP dx rec srec e (n_sep nd) false (Hall x' (HOK_eol nd x Hnd Hokx)) He (Hpr e Hkind) Hsepv k true [] [] s0 Hinv0 eq_refl (Forall_nil _) (Forall_nil _)) as HS.
     rewrite Hp0 in HS.
     destruct (rep_loop rec e (n_sep nd) false k true [] s0) as [r s1|s1|w] eqn:E.
     + destruct HS as [ts [Es [acc' [Er [Ee [Hcl [Hinv1 [Hle [Htr [_ [Hdich _]]]]]]]]]]]. subst r.
@@ -661,11 +678,11 @@ Proof.
     destruct (n_kids nd) as [|e rest] eqn:Ekids; [discriminate|].
     inversion Hval as [|? ? He _]; subst.
     set (x' := ctx_eol nd x). set (s0 := enter_eol nd s).
-    assert (Hinv0 : inv x' s0) by (apply enter_eol_inv; exact Hinv).
+    assert (Hinv0 : inv x' CP s0) by (apply enter_eol_inv; exact Hinv).
     assert (Hp0 : pos s0 = pos s) by apply enter_eol_pos.
     assert (Hsepv : forall sp, n_sep nd = Some sp -> valid g sp).
     { intros sp E. unfold sep_ok in Hsepok. rewrite E, Ek in Hsepok. apply Nat.ltb_lt in Hsepok. exact Hsepok. }
-    pose proof (rep_sim g x' rec srec e (n_sep nd) true (Hall x' (okx_eol g nd x Hokx Heolg)) He (Hpr e Hkind) Hsepv k true [] [] s0 Hinv0 eq_refl (Forall_nil _) (Forall_nil _)) as HS.
+    pose proof (rep_sim g x' CP dx rec srec e (n_sep nd) true (Hall x' (HOK_eol nd x Hnd Hokx)) He (Hpr e Hkind) Hsepv k true [] [] s0 Hinv0 eq_refl (Forall_nil _) (Forall_nil _)) as HS.
     rewrite Hp0 in HS.
     destruct (rep_loop rec e (n_sep nd) true k true [] s0) as [r s1|s1|w] eqn:E.
     + destruct HS as [ts [Es [acc' [Er [Ee [Hcl [Hinv1 [Hle [Htr [_ [_ Hpf]]]]]]]]]]]. subst r.
@@ -679,7 +696,7 @@ Proof.
   - (* KAnd *)
     apply negb_true_iff in Hkind.
     assert (Hnp : forall j, prod_nd (prodb g j) nd = false) by (intro j; unfold prod_nd; rewrite Ek; apply andb_false_r).
-    pose proof (seq_sim g x rec srec false (n_kids nd) Hsim Hval [] [] s Hinv eq_refl (Forall_nil _) (Forall_nil _)) as HS.
+    pose proof (seq_sim g x CP rec srec false (n_kids nd) Hsim Hval [] [] s Hinv eq_refl (Forall_nil _) (Forall_nil _)) as HS.
     destruct (seq_loop rec false (n_kids nd) [] s) as [r s1|s1|w] eqn:E.
     + destruct HS as [acc' [ts [_ [Es [_ [_ [Hinv1 _]]]]]]]. rewrite Es. exists []. split; [reflexivity|].
       apply body_post_none; [apply inv_set_pos; exact Hinv1 | cbn; lia | exact Hkind | exact Hnp].
@@ -688,7 +705,7 @@ Proof.
   - (* KNot *)
     apply negb_true_iff in Hkind.
     assert (Hnp : forall j, prod_nd (prodb g j) nd = false) by (intro j; unfold prod_nd; rewrite Ek; apply andb_false_r).
-    pose proof (seq_sim g x rec srec false (n_kids nd) Hsim Hval [] [] s Hinv eq_refl (Forall_nil _) (Forall_nil _)) as HS.
+    pose proof (seq_sim g x CP rec srec false (n_kids nd) Hsim Hval [] [] s Hinv eq_refl (Forall_nil _) (Forall_nil _)) as HS.
     destruct (seq_loop rec false (n_kids nd) [] s) as [r s1|s1|w] eqn:E.
     + destruct HS as [acc' [ts [_ [Es [_ [_ [Hinv1 _]]]]]]]. rewrite Es. unfold nm_raise.
       split; [reflexivity|]. apply inv_reg_fail. apply inv_set_pos. exact Hinv1.
@@ -703,26 +720,24 @@ Qed.
 
 Variable pf : nat.
 Hypothesis Hwf : forall nid nd, get_node g nid = Some nd -> node_ok g (prodb g pf) nd = true.
-Hypothesis Heolws : eol_ws_ok g = true.
 
-Lemma parse_sim : forall f, sim_all (parse g input orc false f) (seval g input orc true f).
+Lemma parse_sim : forall f, sim_all (parse g input orc false f) (seval g input orc true (f + dx)).
 Proof.
   induction f as [|f IH]; intros x Hokx nid psq s Hinv Hv.
   - cbn. exact I.
-  - pose proof Hokx as [Hx_cmt Hx_eol]. cbn [parse seval].
+  - change (S f + dx) with (S (f + dx)). cbn [parse seval].
     destruct (get_node g nid) as [nd|] eqn:En.
     2:{ exfalso. unfold get_node in En. apply nth_error_None in En. unfold valid in Hv. lia. }
     pose proof (Hwf _ _ En) as Hok.
     destruct (is_match_kind (n_kind nd)) eqn:Em.
     + (* terminals *)
-      destruct (match_pre_sim g input x Hcm (parse g input orc false f) f s Hinv) as [s1 [Emp [Hinv1 [Hp1 Hle1]]]]. rewrite Emp.
-      assert (Esk : skip g input (seval g input orc true f) f x (pos s) = Some (pos s1)).
-      { unfold skip. rewrite Hx_cmt, Hcm, Hp1. destruct (x_skip x); reflexivity. }
-      rewrite Esk.
+      pose proof (Hpre f x s Hokx Hinv) as HP.
+      destruct (match_pre g input (parse g input orc false f) f s) as [r0 s1|s1|w0] eqn:Emp; [|destruct HP|exact I].
+      destruct HP as [Hinv1 [Esk Hle1]]. rewrite Esk.
       unfold node_ok in Hok. apply andb_true_iff in Hok as [_ Hkind].
       assert (Hne : forall t o, n_kind nd = KStr t o -> t <> []).
       { intros t o E. rewrite E in Hkind. destruct t; [discriminate | discriminate]. }
-      pose proof (term_sim input orc x Horc nid (n_kind nd) psq s1 Hinv1 Em Hne) as HT.
+      pose proof (term_sim input orc x CP Horc nid (n_kind nd) psq s1 Hinv1 Em Hne) as HT.
       destruct (term_parse input orc nid (n_kind nd) psq s1) as [r s2|s2|w] eqn:Et.
       * destruct HT as [ts [Es [Ee [Hcl [Hinv2 [Hle2 Hp]]]]]]. rewrite Es.
         destruct (n_suppress nd) eqn:Hsup.
@@ -739,10 +754,7 @@ Proof.
     + (* non-terminals; memoization is off *)
       cbv iota.
       assert (Hnd : In nd (g_nodes g)) by (unfold get_node in En; apply nth_error_In in En; exact En).
-      assert (Heolg : n_eolterm nd = true -> nows g = true).
-      { intro X. unfold eol_ws_ok in Heolws. apply orb_true_iff in Heolws as [A|A]; [|exact A].
-        rewrite forallb_forall in A. specialize (A nd Hnd). rewrite X in A. discriminate. }
-      pose proof (body_sim (parse g input orc false f) (seval g input orc true f) f nd pf x s IH Hokx Hok Hnd Heolg Hinv Em) as HB.
+      pose proof (body_sim (parse g input orc false f) (seval g input orc true (f + dx)) f nd pf x s IH Hokx Hok Hnd Hinv Em) as HB.
       destruct (body (parse g input orc false f) f nd s) as [r s1|s1|w] eqn:Eb.
       * destruct HB as [ts [Es [Ee [Hcl [Hinv1 [Hle [Hpt [Hhead [Hroot Hprod]]]]]]]]]. rewrite Es.
         unfold post, wrap.
@@ -789,6 +801,31 @@ Qed.
 
 End Refine2.
 
+(* the instance without a Comment rule: identity entries in comment_positions, no extra fuel *)
+Lemma okx_eol_g g : eol_ws_ok g = true -> forall nd x, In nd (g_nodes g) -> okx g x -> okx g (ctx_eol nd x).
+Proof.
+  intros He nd x Hnd Hx. apply okx_eol; [exact Hx|]. intro X. unfold eol_ws_ok in He.
+  apply orb_true_iff in He as [A|A]; [|exact A]. rewrite forallb_forall in A. specialize (A nd Hnd). rewrite X in A. discriminate.
+Qed.
+
+Lemma okx_ws_g g : forall nd x, In nd (g_nodes g) -> okx g x -> n_ws nd = None \/ x_eol x = false.
+Proof.
+  intros nd x Hnd [_ Hx]. destruct (x_eol x) eqn:Ee; [left; apply (nows_node g nd); [apply Hx; reflexivity | exact Hnd] | right; reflexivity].
+Qed.
+
+Lemma pre_nocmt g input orc : g_comments g = None -> forall f x s, okx g x -> inv x cpos_id s ->
+  match match_pre g input (parse g input orc false f) f s with
+  | Ok r s1 => inv x cpos_id s1 /\ skip g input (seval g input orc true (f + 0)) (f + 0) x (pos s) = Some (pos s1) /\ pos s <= pos s1
+  | Fail _ => False
+  | Abort _ => True
+  end.
+Proof.
+  intros Hcm f x s [Hx_cmt _] Hinv.
+  destruct (match_pre_sim g input x cpos_id (fun m H => H) cpos_id_upd Hcm (parse g input orc false f) f s Hinv) as [s1 [Emp [Hinv1 [Hp1 Hle1]]]].
+  rewrite Emp. split; [exact Hinv1|]. split; [|exact Hle1].
+  unfold skip. rewrite Hx_cmt, Hcm, Hp1. destruct (x_skip x); reflexivity.
+Qed.
+
 Lemma wfg_parts g pf :
   wfg g pf = true ->
   (forall nid nd, get_node g nid = Some nd -> node_ok g (prodb g pf) nd = true) /\
@@ -816,10 +853,14 @@ Theorem refinement_q g pf c orc fuel input :
   end.
 Proof.
   intros Hwf Horc. destruct (wfg_parts g pf Hwf) as [Hnodes [Hcm Htop]].
-  assert (Hinv : inv (init_ctx c) (init_st c)).
+  assert (Hinv : inv (init_ctx c) cpos_id (init_st c)).
   { constructor; cbn; try reflexivity. constructor. }
   assert (Hok0 : okx g (init_ctx c)) by (split; [reflexivity | intro X; discriminate]).
-  pose proof (parse_sim g input orc Hcm Horc pf Hnodes (wfg_eolws g pf Hwf) fuel (init_ctx c) Hok0 (g_top g) false (init_st c) Hinv Htop) as HS.
+  pose proof (parse_sim g input orc Horc cpos_id 0 (okx g)
+                (fun nd x _ H => okx_enter g nd x H)
+                (okx_eol_g g (wfg_eolws g pf Hwf)) (okx_ws_g g)
+                (pre_nocmt g input orc Hcm) pf Hnodes fuel (init_ctx c) Hok0 (g_top g) false (init_st c) Hinv Htop) as HS.
+  rewrite Nat.add_0_r in HS.
   unfold run, spec_run_q. cbn [pos init_st] in HS.
   destruct (parse g input orc false fuel (g_top g) false (init_st c)) as [r s'|s'|w].
   - destruct HS as [ts [Es [Ee _]]]. exists ts, (pos s'). split; assumption.
